@@ -38,6 +38,9 @@ where
     let mut out = vec![];
     let digits = prec.map(|p| p.min(2 * bytes.len())).unwrap_or(2 * bytes.len());
     for w in [1usize, digits + 1, digits + 9] {
+        if w > PMAX {
+            continue; // std::fmt rejects a run-time width above u16::MAX itself
+        }
         match (upper, prec) {
             (false, None) => {
                 out.push((format!("{{:{}x}}", w), format!("{:w$x}", arr, w = w)));
@@ -76,9 +79,11 @@ where
 /// std::fmt limits a run-time precision argument to u16::MAX ("Formatting argument out of range" beyond)
 const PMAX: usize = u16::MAX as usize;
 
-const LENS: [usize; 29] = [
+const LENS: [usize; 31] = [
     0, 1, 2, 3, 4, 5, 6, 7, 8, 9, 10, 11, 12, 13, 14, 15, 16, 17, 31, 32, 33, 1023, 1024, 1025, 2047,
     2048, 2049, 3000, 4096,
+    // 2N reaches / exceeds u16::MAX + 1: a digit count or precision kept in 16 bits shows here
+    32768, 65536,
 ];
 
 fn run_variants(upper: bool, prec: Option<usize>, bytes: &[u8]) -> Vec<(String, String)> {
@@ -86,7 +91,7 @@ fn run_variants(upper: bool, prec: Option<usize>, bytes: &[u8]) -> Vec<(String, 
         bytes.len(),
         [
             U0, U1, U2, U3, U4, U5, U6, U7, U8, U9, U10, U11, U12, U13, U14, U15, U16, U17, U31, U32, U33,
-            U1023, U1024, U1025, U2047, U2048, U2049, U3000, U4096
+            U1023, U1024, U1025, U2047, U2048, U2049, U3000, U4096, U32768, U65536
         ],
         |N| fmt_variants::<N>(upper, prec, bytes),
         panic!("length {} not monomorphised", bytes.len())
@@ -98,7 +103,7 @@ fn run_impl(upper: bool, prec: Option<usize>, bytes: &[u8]) -> String {
         bytes.len(),
         [
             U0, U1, U2, U3, U4, U5, U6, U7, U8, U9, U10, U11, U12, U13, U14, U15, U16, U17, U31, U32, U33,
-            U1023, U1024, U1025, U2047, U2048, U2049, U3000, U4096
+            U1023, U1024, U1025, U2047, U2048, U2049, U3000, U4096, U32768, U65536
         ],
         |N| fmt_arr::<N>(upper, prec, bytes),
         panic!("length {} not monomorphised", bytes.len())
@@ -224,6 +229,8 @@ fn main() {
         if small {
             precs.extend((0..=2 * n + 2).map(Some));
             precs.push(Some(PMAX));
+        } else if n >= 32768 {
+            precs.extend([0usize, 1, 2, 2047, 2048, 2049, 32767, 32768, PMAX / 2 + 1, PMAX - 1, PMAX].map(Some));
         } else {
             let mut ps: Vec<usize> = vec![0, 1, 2, 3, PMAX, PMAX / 2 + 1];
             let mut k = 2048usize;
